@@ -425,4 +425,9 @@ def failure(T: Trace, case: Dict[str, Any], noframe: bool = False) -> List[Findi
         late += [e["seq"] for e in T.ev if e["k"] == "ASPAWN" and e["seq"] > seen_at]
         if late:
             bad.append(("failure-dispatch-after", f"nodes dispatched after the failure was observed at seq {seen_at}: {late}", None))
+        # an async-thread node is handed to the pool by its task, possibly long after the scheduler created the task
+        started_late = [(e["seq"], T.tok2site.get(e["tok"], e.get("nid"))) for e in T.ev
+                        if e["k"] == "SUBMIT" and e["kind"] == "async" and e["seq"] > seen_at]
+        if started_late and not late:
+            bad.append(("failure-started-after", f"async-thread nodes {started_late} were started (handed to the pool, function entered) after the failure was observed at seq {seen_at} - the call had failed already", None))
     return bad
